@@ -227,3 +227,38 @@ pub fn die_on_first_hunk(work: &Path, arch: &Path, src: &Path, params: &BackupPa
     false
 }
 
+
+/// Directed, real code only: a LONG history — `n` versions of a tiny tree in which one file is rewritten before
+/// every backup (so every version owns one block nobody else references) and one never changes.  Returns the
+/// work directory, the archive path and, per version, the observed source tree.
+pub fn many_versions(n: u32) -> (tempfile::TempDir, PathBuf, PathBuf, BTreeMap<u32, Vec<Obs>>) {
+    let work = tempfile::tempdir().expect("tempdir");
+    let (src, arch) = (work.path().join("src"), work.path().join("arch"));
+    std::fs::create_dir(&src).unwrap();
+    std::fs::write(src.join("const"), b"never changes, longer than the journal").unwrap();
+    create_archive(&arch);
+    let p = BackupParams { max_entries_per_hunk: 100_000, max_block_size: 20 << 20, small_file_cap: 0, owner: true, exclude: vec![] };
+    let mut snaps = BTreeMap::new();
+    for i in 0..n {
+        std::fs::write(src.join("journal"), format!("entry of version {i:05}")).unwrap();
+        filetime::set_file_mtime(src.join("journal"), filetime::FileTime::from_unix_time(1_600_000_000 + i as i64, 0)).unwrap();
+        let r = real_backup(&arch, &src, &p, IceptConfig::default());
+        assert!(r.result.starts_with("result ok"), "many_versions backup {i}: {}", r.result);
+        snaps.insert(i, observe(&src));
+    }
+    (work, arch, src, snaps)
+}
+
+/// After `what` was done to the archive of `many_versions`: every version in `keep` restores to its snapshot.
+pub fn many_versions_restore_all(report: &mut Report, sig: &str, what: &str, work: &Path, arch: &Path, snaps: &BTreeMap<u32, Vec<Obs>>, keep: &[u32]) {
+    let mut bad: Vec<String> = vec![];
+    for b in keep {
+        let (rr, robs) = restore_observe(arch, work, &Sel::Band(*b), "many");
+        if !rr.result.starts_with("result ok") || rr.events.iter().any(|e| e.starts_with("event error")) || crate::c01::tree_diff(&snaps[b], &robs).is_some() {
+            bad.push(band_name(*b));
+        }
+    }
+    if !bad.is_empty() {
+        report.oracle_fail(sig, serde_json::json!({"directed": "many-versions", "versions": snaps.len(), "operation": what}), "after the operation some remaining complete versions no longer restore exactly", serde_json::json!({"harmed": bad}));
+    }
+}
